@@ -36,6 +36,7 @@ func init() {
 			ruleWalRemovalOrder(r)
 			ruleFinishRenameLast(r)
 			ruleWalkSkipsRoot(r)
+			ruleByteAPICopies(r)
 		})
 	register("C07",
 		"Static ordering rules for the WAL: sync append = write + flush + fsync before a nil return (must-pass-through on the CFG), AppendSync uses the fsyncing writer call, rotation closes the old file before creating the next, size check precedes each write, replay sorts the fixed-width file names before reading, and replay classifies every truncation-class reader error as end of log (E-TORN). Decides the orderings on all paths; sequence equality and crash-point enumeration are not decided.",
@@ -83,6 +84,7 @@ func init() {
 			ruleHeaderAtOpen(r)
 			ruleFreshWalDir(r)
 			ruleWalReclaim(r)
+			ruleReplayClosesPerFile(r)
 		})
 }
 
